@@ -1,6 +1,6 @@
 """C15 - accepted definitions always yield outputs that load in their language (partial claim)."""
 from engine.runner import Obligation
-from props.compilers_common import DESCRIPTORS, GOOD, KNOWN_BAD
+from props.compilers_common import DESCRIPTORS, GOOD, KNOWN_BAD, ALL_GOOD
 from harness_meta import CMP_STUBS as STUBS  # noqa: F401
 
 VALIDATORS = []
@@ -19,10 +19,10 @@ ASSUMPTIONS = [
 
 
 def obligations(tier):
-    shards = [dict(DESCRIPTORS[k], name=k, wellformed=1) for k in GOOD + list(KNOWN_BAD)]
+    shards = [dict(ALL_GOOD[k], name=k, wellformed=1) for k in ALL_GOOD] + [dict(DESCRIPTORS[k], name=k, wellformed=1) for k in KNOWN_BAD]
     return [Obligation("outputs_define_before_use_and_no_internal_error", "harness.compilers", "c15", shards, cond_timeout=400, path_timeout=120,
                        reach="c15_reach", reach_shards=[dict(DESCRIPTORS["struct_array_msg"], wellformed=1)], encoded=ENC,
-                       bounds="%d definition descriptors: natives (all 27 names), aliases of natives / aliases / structs, nested structs, struct arrays, message in message, signals, automatic padding, each also with the referenced type coming from an imported file" % len(shards),
+                       bounds="%d definition descriptors (13 hand-written + a generated family: every kind of field type x scalar/array x struct/message container x type defined locally / in an imported file): natives (all 27 names), aliases of natives / aliases / structs, nested structs, struct arrays, message in message, signals, automatic padding, each also with the referenced type coming from an imported file" % len(shards),
                        symbolic="the base message id (ids are base, base+1, ...; 0..9998), module id, host id, a constant")]
 
 
